@@ -298,7 +298,8 @@ def _sim(case, R):
         stack.enter_context(mock.patch.object(np.random, "normal", normal))
         try:
             if coupled:
-                proc.initialisation(product, max_step_epsilon=eps)
+                # (the maximum step shrinks from one level to the next, as in the SDE coupling: the paths of the level are judged with its own)
+                proc.initialisation(product, max_step_epsilon=(None if eps is None else 2.5 * eps))
                 proc.pre_computation(npaths, product)
                 proc.next_level(mc_paths=npaths, path_managers=None, product=product, max_step_epsilon=eps)
                 target = proc.fine_process
